@@ -153,12 +153,13 @@ func c08() []*Ob {
 				if fn := c.Fn("(*fracmanager.proxyFrac).Seal"); fn != nil {
 					seal := Callee("frac.Seal")
 					rel := Callee("(*frac.Active).Release")
-					rels := CallsIn(fn, rel)
+					rels := c.P.FindLifted(fn, CallSel(rel))
 					if len(rels) == 0 {
 						c.Undecided("norelease", fn.Pos(), "proxyFrac.Seal no longer calls Active.Release; cannot tell where the originals are removed")
 					}
-					for _, r := range rels {
-						if GuardedByNilErr(r.(ssa.Instruction), seal) {
+					for _, rl := range rels {
+						r := rl.Top()
+						if GuardedByNilErr(r, seal) {
 							c.Site(r.Pos(), "Active.Release is only reached when frac.Seal returned nil")
 						} else {
 							c.Violation("dom:proxyFrac.Seal:release-needs-seal-ok", r.Pos(), "the active fraction's files can be released although sealing failed")
